@@ -337,6 +337,27 @@ impl Check for C10 {
                         (format!("^[{}-[{}]]$", n, p), x.to_string(), true),
                         (format!("^{}+{}+{}+$", p, n, p), format!("{}{}{}", m, x, m), true),
                     ];
+                    // the escape as a member of a bracket group under flag i: class escapes
+                    // are unaffected by the flag, only the literal member is case-blind
+                    let mut icases: Vec<(String, String, bool)> = vec![];
+                    for c in [m, x, crate::ucd::swap_case(m), crate::ucd::swap_case(x), '_', 'q', 'Q'] {
+                        let in_p = single(&p, c);
+                        if let Some(in_p) = in_p {
+                            icases.push((format!("^[{}_q]$", p), c.to_string(), in_p || c == '_' || c == 'q' || c == 'Q'));
+                            icases.push((format!("^[^{}_q]$", p), c.to_string(), !(in_p || c == '_' || c == 'q' || c == 'Q')));
+                        }
+                    }
+                    for (pat, inp, want) in icases {
+                        out.inc("states");
+                        out.inc("validated");
+                        let got = match imp::compile(&pat, "i", false) {
+                            Out::Ok(re) => imp::is_match(&re, &inp),
+                            o => o.map(|_| false),
+                        };
+                        if got != Out::Ok(want) {
+                            out.fail("C10", &Case::new("PAIR", &pat, "i").input(&inp).api("is_match"), "EscapeInGroupUnderI", &want.to_string(), &got.show(), "class escapes are unaffected by flag i; membership taken from the single-escape observations");
+                        }
+                    }
                     for (pat, inp, want) in cases {
                         out.inc("states");
                         out.inc("validated");
